@@ -135,9 +135,9 @@ static void do_reset(void)
 static const char *kindkey(const char *kind, int dlci)
 {
 	static char k[80];
-	if (taint == 2) snprintf(k, sizeof(k), "C06:resync:overlong+noise:%s", kind);
-	else if (taint == 1) snprintf(k, sizeof(k), "C06:resync:overlong:%s", kind);
-	else snprintf(k, sizeof(k), "C06:dlci=0x%02x:%s", dlci, kind);
+	const char *t = taint == 2 ? "after-overlong+noise:" : taint == 1 ? "after-overlong:" : "";
+	if (dlci < 0) snprintf(k, sizeof(k), "C06:idle:%sspurious-delivery", t);
+	else snprintf(k, sizeof(k), "C06:dlci=0x%02x:%s%s", dlci, t, kind);
 	return k;
 }
 
@@ -151,7 +151,7 @@ static void judge(int frame_end)
 	}
 	if (!frame_end) {
 		if (ndv)
-			viol(have_cur ? kindkey("spurious", cur.dlci) : (taint ? kindkey("spurious", 0) : "C06:idle:spurious-delivery"),
+			viol(kindkey("spurious", have_cur ? cur.dlci : -1),
 			     "handler of DLCI 0x%02x called with %s although no frame was complete", dv[0].dlci, hex(dv[0].data, dv[0].len));
 		ndv = 0;
 		return;
@@ -639,7 +639,7 @@ static int do_sweep(int lo, int hi, int maxlen)
 			do_send(d, buf, RXBUF); run_frame(1);
 			if (!bad) { do_send(d, f1p, 2); run_frame(1); }
 			if (!bad) { do_send(d, f2p, 3); run_frame(1); }
-			if (!bad && desync) viol("C06:resync:overlong:harness", "reference still out of sync");
+			if (!bad && desync) { fprintf(res, "{\"harness_error\": \"reference still out of sync\"}\n"); fflush(res); exit(3); }
 			n_transfers += 3; boundary++;
 			if (bad) do_reset();
 		}
@@ -678,7 +678,7 @@ static int do_resync(int part, int nparts)
 		if (nc) p += sprintf(p, "n%s,", NOISE[cidx]);
 		p += sprintf(p, "%s,%s", FR[f][1], FR[f][2]);
 		run_tokens(casebuf);
-		if (!bad && (desync || have_cur || npend)) viol("C06:resync:harness", "scenario did not end in sync");
+		if (!bad && (desync || have_cur || npend)) { fprintf(res, "{\"harness_error\": \"scenario %s did not end in sync\"}\n", casebuf); fflush(res); exit(3); }
 		nrun++;
 	} }
 	fprintf(res, "{\"resync_scenarios\": %lu, \"frames\": %lu, \"exact_deliveries\": %lu, \"tolerated_deliveries\": %lu, \"wire_octets\": %lu, "
@@ -716,6 +716,18 @@ static int do_echo(void)
 	return nviol ? 1 : 0;
 }
 
+/* msgb.h is built with MSGB_DEBUG: running out of head/tailroom calls osmo_panic() */
+static void on_panic(const char *fmt, va_list args)
+{
+	char msg[300];
+	vsnprintf(msg, sizeof(msg), fmt, args);
+	char *nl = strchr(msg, '\n'); if (nl) *nl = 0;
+	char *par = strchr(msg, ')'); /* drop the msgb address: "msgb(0x...): text" */
+	fprintf(res, "CRASH | %s\nPANIC | %s\n", trace_fn ? trace_fn() : "-", par ? par + 1 : msg);
+	fflush(res);
+	_exit(97);
+}
+
 #ifdef __SANITIZE_ADDRESS__
 #include <sanitizer/common_interface_defs.h>
 static void on_death(void)
@@ -733,6 +745,7 @@ int main(int argc, char **argv)
 #ifdef __SANITIZE_ADDRESS__
 	__sanitizer_set_death_callback(on_death);
 #endif
+	osmo_set_panic_handler(on_panic);
 	if (argc < 2) return 2;
 	if (!strcmp(argv[1], "bfs")) return do_bfs(argc, argv);
 	if (!strcmp(argv[1], "replay") && argc >= 3) return do_replay(argv[2]);
